@@ -1,137 +1,61 @@
 /* C12 tier B: spiftool_split produces exactly the token list of the quoting grammar, for every input of
  * length <= 5 (quick tier) / <= 7 (thorough tier) over {a, b, space, ':', ''', '"', '\'} and the
- * delimiter sets NULL / ":" / " :"; it never reads beyond the terminator of the input or of the delimiter
- * set (both end at the last byte of their objects), leaves the input unchanged (ghost index) and writes no
- * byte beyond the requested size of any block it allocates (ghost-index canary of env_split.h, checked at
- * every realloc and on every returned block); the result array is NULL-terminated right after the last
- * token.
+ * delimiter sets NULL / ":" / " :" (one unit each); it never reads beyond the terminator of the input or
+ * of the delimiter set (both end at the last byte of their objects), leaves the input unchanged (ghost
+ * index) and writes no byte beyond the requested size of any block it allocates (ghost-index canary of
+ * env_split.h, checked at every realloc and on every returned block); the result array is NULL-terminated
+ * right after the last token.
  *
- * The real strings.c is executed on the loop strlen/strchr and the fat-block malloc/realloc of
- * env_split.h and cbmc's own free; all loops unwound (--unwind 8 / 10 with unwinding assertions).
- * strings.c is included as "../src/strings.c" (= $REPO/include/../src/strings.c, the unannotated file of
- * the tree under check; B units apply no loop contracts).
- *
- * Input classes, one unit each per delimiter set (disjoint harness assumptions, so that a known defect of
- * one class cannot hide a regression in another): "mixed" = a quote character of the other kind occurs
- * inside quotes; "trailbs" = the input ends in an unescaped backslash (and is not mixed); "plain" = neither.
- * This is the stand-in for the missing tier P unit of spiftool_split (see prop.json). */
+ * The real strings.c (rawsrc/ = the unannotated file of the tree under check; B units apply no loop
+ * contracts) is executed on the loop strlen/strchr and the fat-block malloc/realloc of env_split.h and
+ * cbmc's own free; all loops unwound (--unwind 8 / 10 with unwinding assertions).
+ * This is the stand-in for the missing tier P unit of spiftool_split (see prop.json).
+ * Native replay (`native: self`): the same harness, inputs W_len, W_c0..W_c6, W_gk, real libc under ASan. */
 
 /*@unit
-name: split.grammar.ws.plain
-define: U_GRAMMAR, V_DELIM_KIND=0, V_CLASS=0
+name: split.grammar.ws
+define: V_DELIM_KIND=0
 src: strings.c
 tier: B
-bound: input length <= 5 (quick tier) / <= 7 (thorough tier) over {a,b,space,:,',",\}; delimiter set NULL (whitespace); inputs without mixed quotes and without a trailing unescaped backslash; loops unwound 8 / 10
+bound: input length <= 5 (quick tier) / <= 7 (thorough tier) over {a,b,space,:,',",\}; delimiter set NULL (whitespace); loops unwound 8 / 10
 unwind: 8
 unwind_thorough: 10
 backend: cadical
-timeout: 600
-timeout_thorough: 3000
+native: self
+timeout: 900
+timeout_thorough: 6000
 mem: 16
+funcs: spiftool_split
 */
 /*@unit
-name: split.grammar.ws.mixed
-define: U_GRAMMAR, V_DELIM_KIND=0, V_CLASS=1
+name: split.grammar.colon
+define: V_DELIM_KIND=1
 src: strings.c
 tier: B
-bound: input length <= 5 (quick tier) / <= 7 (thorough tier) over {a,b,space,:,',",\}; delimiter set NULL (whitespace); inputs with a quote character of the other kind inside quotes; loops unwound 8 / 10
+bound: input length <= 5 (quick tier) / <= 7 (thorough tier) over {a,b,space,:,',",\}; delimiter set ":"; loops unwound 8 / 10
 unwind: 8
 unwind_thorough: 10
 backend: cadical
-timeout: 600
-timeout_thorough: 3000
+native: self
+timeout: 900
+timeout_thorough: 6000
 mem: 16
+funcs: spiftool_split
 */
 /*@unit
-name: split.grammar.ws.trailbs
-define: U_GRAMMAR, V_DELIM_KIND=0, V_CLASS=2
+name: split.grammar.spcolon
+define: V_DELIM_KIND=2
 src: strings.c
 tier: B
-bound: input length <= 5 (quick tier) / <= 7 (thorough tier) over {a,b,space,:,',",\}; delimiter set NULL (whitespace); inputs ending in an unescaped backslash (no mixed quotes); loops unwound 8 / 10
+bound: input length <= 5 (quick tier) / <= 7 (thorough tier) over {a,b,space,:,',",\}; delimiter set " :"; loops unwound 8 / 10
 unwind: 8
 unwind_thorough: 10
 backend: cadical
-timeout: 600
-timeout_thorough: 3000
+native: self
+timeout: 900
+timeout_thorough: 6000
 mem: 16
-*/
-/*@unit
-name: split.grammar.colon.plain
-define: U_GRAMMAR, V_DELIM_KIND=1, V_CLASS=0
-src: strings.c
-tier: B
-bound: input length <= 5 (quick tier) / <= 7 (thorough tier) over {a,b,space,:,',",\}; delimiter set ":"; inputs without mixed quotes and without a trailing unescaped backslash; loops unwound 8 / 10
-unwind: 8
-unwind_thorough: 10
-backend: cadical
-timeout: 600
-timeout_thorough: 3000
-mem: 16
-*/
-/*@unit
-name: split.grammar.colon.mixed
-define: U_GRAMMAR, V_DELIM_KIND=1, V_CLASS=1
-src: strings.c
-tier: B
-bound: input length <= 5 (quick tier) / <= 7 (thorough tier) over {a,b,space,:,',",\}; delimiter set ":"; inputs with a quote character of the other kind inside quotes; loops unwound 8 / 10
-unwind: 8
-unwind_thorough: 10
-backend: cadical
-timeout: 600
-timeout_thorough: 3000
-mem: 16
-*/
-/*@unit
-name: split.grammar.colon.trailbs
-define: U_GRAMMAR, V_DELIM_KIND=1, V_CLASS=2
-src: strings.c
-tier: B
-bound: input length <= 5 (quick tier) / <= 7 (thorough tier) over {a,b,space,:,',",\}; delimiter set ":"; inputs ending in an unescaped backslash (no mixed quotes); loops unwound 8 / 10
-unwind: 8
-unwind_thorough: 10
-backend: cadical
-timeout: 600
-timeout_thorough: 3000
-mem: 16
-*/
-/*@unit
-name: split.grammar.spcolon.plain
-define: U_GRAMMAR, V_DELIM_KIND=2, V_CLASS=0
-src: strings.c
-tier: B
-bound: input length <= 5 (quick tier) / <= 7 (thorough tier) over {a,b,space,:,',",\}; delimiter set " :"; inputs without mixed quotes and without a trailing unescaped backslash; loops unwound 8 / 10
-unwind: 8
-unwind_thorough: 10
-backend: cadical
-timeout: 600
-timeout_thorough: 3000
-mem: 16
-*/
-/*@unit
-name: split.grammar.spcolon.mixed
-define: U_GRAMMAR, V_DELIM_KIND=2, V_CLASS=1
-src: strings.c
-tier: B
-bound: input length <= 5 (quick tier) / <= 7 (thorough tier) over {a,b,space,:,',",\}; delimiter set " :"; inputs with a quote character of the other kind inside quotes; loops unwound 8 / 10
-unwind: 8
-unwind_thorough: 10
-backend: cadical
-timeout: 600
-timeout_thorough: 3000
-mem: 16
-*/
-/*@unit
-name: split.grammar.spcolon.trailbs
-define: U_GRAMMAR, V_DELIM_KIND=2, V_CLASS=2
-src: strings.c
-tier: B
-bound: input length <= 5 (quick tier) / <= 7 (thorough tier) over {a,b,space,:,',",\}; delimiter set " :"; inputs ending in an unescaped backslash (no mixed quotes); loops unwound 8 / 10
-unwind: 8
-unwind_thorough: 10
-backend: cadical
-timeout: 600
-timeout_thorough: 3000
-mem: 16
+funcs: spiftool_split
 */
 #define VERIF_OWN_STRLEN
 #define VERIF_OWN_STRCHR
@@ -140,7 +64,7 @@ mem: 16
 #include "env_split.h"
 #include "split.h"
 #include "ref.h"
-#include "../src/strings.c"
+#include "rawsrc/strings.c"
 
 #if V_DELIM_KIND == 0
 # define V_DELIM ((spif_charptr_t) NULL)
@@ -152,7 +76,6 @@ static char v_delim_buf[3] = " :";
 # define V_DELIM ((spif_charptr_t) v_delim_buf)
 #endif
 
-#ifdef U_GRAMMAR
 void harness(void)
 {
     unsigned n, i;
@@ -161,36 +84,21 @@ void harness(void)
     spif_charptr_t *l;
 
     vr_tokenize(V_DELIM, in, &R);
-#if V_CLASS == 0
-    __CPROVER_assume(!R.f_mixed && !R.f_trailbs);
-#elif V_CLASS == 1
-    __CPROVER_assume(R.f_mixed);
-#else
-    __CPROVER_assume(!R.f_mixed && R.f_trailbs);
-#endif
     l = spiftool_split(V_DELIM, (spif_charptr_t) in);
 
     /* the input is not modified (ghost index) */
     __CPROVER_assert(!(vg_k <= n) || in[vg_k] == w_in[vg_k], "split: input string unchanged");
 
-#if V_CLASS == 0
-# define CLS "[plain]"
-#elif V_CLASS == 1
-# define CLS "[mixed quotes]"
-#else
-# define CLS "[trailing backslash]"
-#endif
-    __CPROVER_assert((l == NULL) == (R.cnt == 0), "split " CLS ": NULL result iff the grammar has no token");
+    __CPROVER_assert((l == NULL) == (R.cnt == 0), "split: NULL result iff the grammar has no token");
     if (l != NULL) {
         for (i = 0; i < R.cnt; i++) {
-            __CPROVER_assert(l[i] != NULL, "split " CLS ": at least as many tokens as the grammar");
+            __CPROVER_assert(l[i] != NULL, "split: at least as many tokens as the grammar");
             if (l[i] == NULL) return;
-            __CPROVER_assert(vr_streq((char *) l[i], R.t[i]), "split " CLS ": token text equals the grammar's token");
+            __CPROVER_assert(vr_streq((char *) l[i], R.t[i]), "split: token text equals the grammar's token");
             vs_check_block(l[i]);
         }
-        __CPROVER_assert(l[R.cnt] == NULL, "split " CLS ": array NULL-terminated right after the last grammar token");
+        __CPROVER_assert(l[R.cnt] == NULL, "split: array NULL-terminated right after the last grammar token");
         vs_check_block(l);
     }
     VERIF_CANARY();
 }
-#endif
